@@ -12,7 +12,7 @@ import json, os, shutil, subprocess, sys, glob, hashlib, time
 
 ENV = dict(os.environ, GOFLAGS='-mod=mod', GOPROXY='off')
 def sh(cmd, cwd=None, env=None, timeout=3600):
-    p = subprocess.run(cmd, shell=True, cwd=cwd, env=env or ENV, capture_output=True, text=True, timeout=timeout)
+    p = subprocess.run(cmd, shell=True, cwd=cwd, env=env or ENV, capture_output=True, text=True, errors='replace', timeout=timeout)
     return p
 
 prop, mutdir, name = sys.argv[1], sys.argv[2].rstrip('/'), sys.argv[3]
